@@ -166,6 +166,9 @@ def run(out, tier, seed):
         evs = random_history(rng, U3, names, rng.randint(8, 30 if quick else 50), iters=cfgv["store"] == "Memory")
         jobs.append({"cfg": dict(S=U3[0], P=U3[1], O=U3[2], names=names, vocab=vb, obs="all" if i % 4 == 0 else "last", **cfgv), "events": evs})
     out.conform(__name__, TRACE, jobs, nontrivial=nontrivial, chunk=800 if quick else 1500)
+    # the Graph-level API on top of add / remove / triples (set, += -= + - * ^, BatchAddGraph, projections ...): GraphOps.tla / TraceGraphAlgebra.tla
+    from . import g04
+    g04.add_jobs(out, tier, seed)
     if not quick:
         # the repository's own tests, run under the Memory-store hooks (rdflib/_verif.py), validated against TraceMemory.tla
         from . import g03
